@@ -861,6 +861,15 @@ def check_c16(run):
         run.samples.append("[%s/opt] %d composite events (input x option configuration) recorded from the real code" % (fam.name, n))
         absorb_events(run, bad, fam.name)
         run.distinct += n
+    # T-mode on parsers built with an option whose effect is modelled EXACTLY: random histories (parse / resolve / setters / SearchParams / clone)
+    # recorded from the real code and validated against the specification run with that option record
+    exact = ["special_gopher", "special_nofile", "set_path", "set_query", "set_squery", "set_frag", "set_sfrag"]
+    r_ = rng(run.seed, "c16traces")
+    for i, pn in enumerate(exact if not q else r_.sample(exact, 3)):
+        bad, nev = run.record_and_validate(1500 if q else 12000, seed_salt=160 + i, parser=pn, parse_only=40)
+        mine = [(dict(ev, k="trace", opt=pn, **{"in": ev.get("a", [])}), [v for v in vs if not v.startswith("C03")]) for ev, vs in bad]
+        absorb_events(run, [(e, v) for e, v in mine if v], "option-traces")
+    run.samples.append("[T-mode] histories recorded on parsers built with special-scheme tables / replaced percent-encode sets, validated by TLC against UrlApi.tla with POpts = the option record")
     # skip-equals: exact, through the list machine with the SkipEquals deviation switched on in both the spec and the real parser
     names = ["", "a", "b"]
     values = ["", "1"]
